@@ -1,7 +1,9 @@
 """C18 - one simulation, three spellings: YAML v2, TOML v2, legacy v1 give the same run."""
 from contracts import config as Cf
 
-UNITS = Cf.v2_units() + Cf.v1_units()
+from contracts import model as M
+
+UNITS = Cf.v2_units() + Cf.v1_units() + list(M.LOADER_UNITS)
 LEMMAS = []
 NATIVE = [dict(name="three spellings of three scenarios run through the real configure + Model, outputs compared", harness="spellings_bounded", kind="bounded")]
 LEVEL = "other"
